@@ -328,6 +328,7 @@ fn run_inner(case: &EnvCase, orc: EnvOracles, prop: &str, feat: &mut EnvFeatures
                 Instr::New { asset, bid, vol, trader, price } => {
                     let a = (*asset as usize) % n;
                     let k = *bid as usize;
+                    let price = &crate::ops::limit_price(*bid, *price, case.ticks[a]);
                     let v = if is_drain {
                         *vol
                     } else {
@@ -409,6 +410,7 @@ fn run_inner(case: &EnvCase, orc: EnvOracles, prop: &str, feat: &mut EnvFeatures
                     }
                     unpinned += 1;
                     let o = &orders[id];
+                    let price = &crate::ops::limit_price(o.bid, *price, case.ticks[a]);
                     let vol = vol.map(|v| {
                         // charge potential increases against the budget of the order's side
                         let k = o.bid as usize;
